@@ -75,6 +75,7 @@ func cmdRun(args []string) {
 	knownPath := fs.String("known", "", "known findings file")
 	workers := fs.Int("workers", 16, "parallel workers")
 	solver := fs.String("solver", "z3", "z3|z3-new|cvc5")
+	witnessFile := fs.String("witness", "", "interpreter mode: batch JSON [{harness,witness}] (first matching item is run concretely)")
 	fs.Parse(args)
 	t0 := time.Now()
 	ld, err := LoadPackage(*repo, *hroot, *pkg)
@@ -105,9 +106,27 @@ func cmdRun(args []string) {
 			fmt.Fprintln(os.Stderr, "harness without SSA function:", h.Name)
 			os.Exit(3)
 		}
-		r := RunHarness(ld, h, base, known)
+		var wit []WitnessVal
+		if *witnessFile != "" {
+			var items []BatchItem
+			b, _ := os.ReadFile(*witnessFile)
+			json.Unmarshal(b, &items)
+			for _, it := range items {
+				if it.Harness == h.Name {
+					wit = it.Witness
+					break
+				}
+			}
+			base.Workers = 1
+		}
+		r := RunHarnessW(ld, h, base, known, wit)
 		ro.Results = append(ro.Results, r)
 		fmt.Fprintf(os.Stderr, "%-40s %-12s paths=%d steps=%d queries=%d (unk %d) solver=%.1fs wall=%.1fs\n", r.Harness, r.Status, r.Paths, r.Steps, r.QTotal, r.QUnknown, r.SolverS, r.WallS)
+		if os.Getenv("GOSYM_NOTES") != "" {
+			for _, s := range r.Notes {
+				fmt.Fprintln(os.Stderr, "   note:", s)
+			}
+		}
 		for _, s := range r.Inconclusive {
 			fmt.Fprintln(os.Stderr, "   inconclusive:", s)
 		}
